@@ -1,6 +1,6 @@
 (** Property C11 — KwikSort's result is pivot-independent when pairwise preferences cohere.
     The pivot choices are an input ([script]); every theorem holds for every script. *)
-From Corankco Require Import Prelude Scheme Rank KemenySpec CostTableProof GroupSort KwikSort KwikSortProof.
+From Corankco Require Import Prelude Scheme Rank KemenySpec CostTableProof GroupSort KwikSort KwikSortProof Scaling KwikScale.
 Local Open Scope Z_scope.
 
 (** the placement computed from the five vectorised counts is the cheapest placement by the
@@ -53,3 +53,12 @@ Theorem C11_step_respects_pivot : forall w f script rem c s',
     (Z.sgn (w pivot e) = 1 -> bucket_id c pivot < bucket_id c e).
 Proof. exact kwik_step_respects_pivot. Qed.
 Print Assumptions C11_step_respects_pivot.
+
+(** for the same pivot choices the consensus does not depend on which positive multiple of the scheme is given: every placement
+    relative to the pivot compares three costs that are linear in the scheme *)
+Theorem C11_placement_scale_invariant : forall k s pp po, 0 < k -> where_should (scale_scheme k s) pp po = where_should s pp po.
+Proof. exact where_should_scale. Qed.
+Print Assumptions C11_placement_scale_invariant.
+Theorem C11_scale_invariant : forall k s D U0 script, 0 < k -> kwiksort (scale_scheme k s) D U0 script = kwiksort s D U0 script.
+Proof. exact kwiksort_scale. Qed.
+Print Assumptions C11_scale_invariant.
